@@ -14,7 +14,7 @@ Ltac simp_state :=
        m_pbytes m_pchunks m_ioerr m_pending m_in_t m_in_p m_consumed m_leftover m_dropped m_q_t m_q_p
        add_pbytes add_pchunks add_ioerr add_pending add_in_t add_in_p add_consumed add_leftover add_dropped add_q_t add_q_p
        man_on_dropped man_on_input
-       hand hand_all main_loop feeder_ids] in *.
+       hand hand_all main_loop feeder_ids after_queue saving writing_pc] in *.
 
 (* goals that are an unchanged field, or vacuous because the program counter is another one *)
 Ltac field_trivial :=
@@ -23,7 +23,8 @@ Ltac field_trivial :=
         | solve [intros ? ? HH; inversion HH]
         | solve [intros [HH|HH]; inversion HH]
         | solve [intros HH; inversion HH]
-        | solve [intros; assumption] ].
+        | solve [intros; assumption]
+        | solve [split; first [assumption | intros; discriminate | intros HH; inversion HH | intros; assumption]] ].
 
 Ltac cnt_cons_all :=
   repeat match goal with
@@ -179,7 +180,7 @@ Qed.
 Lemma inv_feed_push : forall s s', Inv s -> do_feed_push s = Some s' -> Inv s'.
 Proof.
   intros s s' Hinv H. unfold do_feed_push in H.
-  destruct (st_fpc s) as [| |c c'| | | |] eqn:Ef; try discriminate.
+  destruct (st_fpc s) as [| |c c'| | | | | |] eqn:Ef; try discriminate.
   destruct (Nat.ltb (length (st_win s)) (st_M s)) eqn:Elt; [|discriminate].
   inversion H; subst s'; clear H. apply Nat.ltb_lt in Elt.
   destruct Hinv. constructor; simp_state; rewrite ?Ef in *; simp_state; try field_trivial.
@@ -214,7 +215,7 @@ Proof.
   assert (In (c_id c) (ids (inflight s))).
   { unfold tracked, inflight in *. rewrite !ids_app. in_norm.
     destruct Hc as [Hc|[Hc|[Hc|Hc]]]; try (apply ids_in in Hc; tauto).
-    right. left. destruct (st_fpc s) as [|c1|c1 c2|[l|]|[l|] c1| |] eqn:Ef; cbn [hand hand_all ids map In] in *; try tauto.
+    right. left. destruct (st_fpc s) as [|c1|c1 c2|[l|]|[l|] c1| | |c1|] eqn:Ef; cbn [hand hand_all ids map In] in *; try tauto.
     all: try (destruct Hc as [Hc|Hc]; [subst; tauto|try contradiction]).
     - destruct (i_push _ _ _ Hinv _ _ Ef) as [Hid _].
       destruct Hc as [Hc|[Hc|[]]]; subst; [left; exact Hid|tauto].
@@ -232,7 +233,7 @@ Qed.
 Lemma inv_feed_stop : forall s s', Inv s -> do_feed_stop s = Some s' -> Inv s'.
 Proof.
   intros s s' Hinv H. unfold do_feed_stop in H.
-  destruct (st_fpc s) as [| |c c'| | | |] eqn:Ef; try discriminate.
+  destruct (st_fpc s) as [| |c c'| | | | | |] eqn:Ef; try discriminate.
   - destruct (st_queue s) eqn:Eq; [|discriminate]. destruct (st_closed s) eqn:Ec; [|discriminate].
     inversion H; subst s'; clear H.
     destruct Hinv. constructor; simp_state; rewrite ?Ef, ?Eq in *; simp_state; try field_trivial.
@@ -254,13 +255,21 @@ Qed.
 Lemma inv_save_end : forall s s', Inv s -> do_save_end s = Some s' -> Inv s'.
 Proof.
   intros s s' Hinv H. unfold do_save_end in H.
-  destruct (st_fpc s) as [| | |[l|]| | |] eqn:Ef; try discriminate.
-  destruct (st_queue s) eqn:Eq; [|discriminate]. destruct (st_win s) eqn:Ew; [|discriminate].
-  inversion H; subst s'; clear H.
-  destruct Hinv. constructor; simp_state; rewrite ?Ef, ?Eq, ?Ew in *; simp_state; try field_trivial.
-  all: try (count_move i_count).
-  all: try (wf_same i_chunk).
-  all: try (intros; split; reflexivity).
+  destruct (st_fpc s) as [| | |[l|]| | | | |] eqn:Ef; try discriminate.
+  - (* saveQueued returns *)
+    destruct (st_queue s) eqn:Eq; [|discriminate].
+    inversion H; subst s'; clear H.
+    destruct Hinv. constructor; simp_state; rewrite ?Ef, ?Eq in *; simp_state; try field_trivial.
+    all: try (count_move i_count).
+    all: try (wf_same i_chunk).
+    all: try (split; [intros; reflexivity|intros HH; inversion HH]).
+  - (* saveOutput returns *)
+    destruct (st_win s) eqn:Ew; [|discriminate].
+    inversion H; subst s'; clear H.
+    destruct Hinv. constructor; simp_state; rewrite ?Ef, ?Ew in *; simp_state; try field_trivial.
+    all: try (count_move i_count).
+    all: try (wf_same i_chunk).
+    all: try (destruct i_empty as [Hq _]; split; [intros; apply Hq; reflexivity|intros; reflexivity]).
 Qed.
 
 Lemma inv_feed_stopped : forall s s', Inv s -> do_feed_stopped s = Some s' -> Inv s'.
@@ -271,7 +280,7 @@ Proof.
   destruct Hinv. constructor; simp_state; rewrite ?Ef in *; simp_state; try field_trivial.
   all: try (count_move i_count).
   all: try (wf_same i_chunk).
-  all: try (intros; apply i_empty; left; reflexivity).
+  all: try (destruct i_empty as [Hq _]; split; [intros; apply Hq; reflexivity|intros HH; inversion HH]).
 Qed.
 
 (* events that touch neither chunks nor files *)
@@ -302,7 +311,7 @@ Proof.
   - intros c0 Hc0. apply in_app_or in Hc0. destruct Hc0 as [Hc0|[Hc0|[]]]; [apply i_hold; exact Hc0|].
     subst c0. rewrite i_win. apply in_or_app. right. left. reflexivity.
   - cbn [length] in *. lia.
-  - intros Hp. apply i_empty in Hp. destruct Hp as [_ Hp]. discriminate.
+  - destruct i_empty as [Hq Hw]. split; [exact Hq|]. intros Hp. apply Hw in Hp. discriminate.
 Qed.
 
 
@@ -313,7 +322,7 @@ Lemma ids_of_tracked_lists : forall p q w h c,
 Proof.
   intros p q w h c Hp Hc. rewrite !ids_app. in_norm.
   destruct Hc as [Hc|[Hc|[Hc|Hc]]]; try (apply ids_in in Hc; tauto).
-  right. left. destruct p as [|c1|c1 c2|[l|]|[l|] c1| |] eqn:Ef; cbn [hand hand_all ids map In] in *; try tauto.
+  right. left. destruct p as [|c1|c1 c2|[l|]|[l|] c1| | |c1|] eqn:Ef; cbn [hand hand_all ids map In] in *; try tauto.
   all: try (destruct Hc as [Hc|Hc]; [subst; tauto|try contradiction]).
   - specialize (Hp _ _ eq_refl). destruct Hc as [Hc|[Hc|[]]]; subst; [left; exact Hp|tauto].
   - destruct Hc as [Hc|[]]. subst. tauto.
@@ -647,53 +656,78 @@ Proof.
 Qed.
 
 
-(* ---------- saveEverything: the write of a chunk whose space check has passed ---------- *)
+(* ---------- saveQueued / saveOutput: the write of a chunk whose space check has passed ---------- *)
+
+(* what is known about the program counter the feeder returns to after a chunk *)
+Definition back_pc (p back : fpc) (c : chunk) : Prop :=
+  hand p = c :: hand back /\ hand_all p = c :: hand_all back /\
+  main_loop p = false /\ main_loop back = false /\ saving back = None /\
+  (forall c1 c2, back <> FPush c1 c2) /\ after_queue back = after_queue p /\ back <> FStopped.
+
+Lemma saving_back : forall p c back, saving p = Some (c, back) -> back_pc p back c.
+Proof.
+  intros p c back H. unfold back_pc. destruct p as [| | |l|[l|] c0| | |c0|]; cbn [saving] in H; try discriminate;
+    inversion H; subst; cbn [hand hand_all main_loop saving after_queue];
+    repeat split; try reflexivity; try (intros; discriminate); try (intros ? ?; discriminate).
+Qed.
+
 Lemma good_save_write : forall s s' ws,
   PInv s -> Inv s -> do_save_write ws s = Some s' -> PInv s' /\ (st_up s' = true -> Inv s').
 Proof.
   intros s s' ws Hp Hinv H. unfold do_save_write in H.
-  destruct (st_fpc s) as [| | | |last c| |] eqn:Ef; try discriminate.
-  destruct (i_savew _ _ _ Hinv _ _ Ef) as (Hle_max & Hle_fw & Hs & (data & Hd)).
+  destruct (saving (st_fpc s)) as [[c back]|] eqn:Esv; [|discriminate].
+  destruct (i_savew _ _ _ Hinv _ _ Esv) as (Hle_max & Hle_fw & Hs & (data & Hd)).
+  destruct (saving_back _ _ _ Esv) as (Hhand & Hhall & Hml & Hmlb & Hsb & Hnp & Haq & Hnst).
   rewrite Hd in H.
-  assert (Hct : In c (tracked s)) by (unfold tracked; rewrite Ef; destruct last; cbn [hand_all hand]; in_norm; tauto).
+  assert (Hct : In c (tracked s)) by (unfold tracked; rewrite Hhall; in_norm; tauto).
   assert (Hwf : wf_chunk s c) by (apply (i_chunk _ _ _ Hinv); exact Hct).
   assert (Hm : matchf (c_id c) = true) by (apply tracked_match with (s := s); assumption).
   destruct (wf_unsaved _ _ _ Hwf Hs Hd) as ((b & Hacc) & Hnone).
   assert (Hev : In (c_id c, data) (st_ever s)) by (eapply (i_acc_ever _ _ _ Hinv); eassumption).
   assert (Hdl : dlen c = Z.of_nat (length data)) by (unfold dlen; rewrite Hd; reflexivity).
+  assert (Hclosed : st_closed s = true) by (apply (i_closed _ _ _ Hinv); exact Hml).
+  destruct (i_empty _ _ _ Hinv) as [Hq0 _].
+  destruct (i_fifo _ _ _ Hinv) as (rest & Hrest & _).
   destruct (unload_write ws (st_dir s) (st_met s) c data) as [d m c' ok|d] eqn:Ew.
   - destruct (unload_write_ret _ _ _ _ _ _ _ _ _ Ew) as (Hf & Hsrt & Hyes & Hno).
     pose proof (frame_matching _ _ _ Hf Hm) as Hfm.
     destruct ok; inversion H; subst s'; clear H.
     + destruct (Hyes eq_refl) as (_ & Hdir & Hmet). subst m.
       match goal with |- PInv ?S /\ _ =>
-        destruct (settle s S c true Hp Hinv Hct) as [Hp' HA]; simp_state; rewrite ?Ef in *; simp_state; try reflexivity
+        destruct (settle s S c true Hp Hinv Hct) as [Hp' HA]; simp_state; rewrite ?Hhand, ?Hhall in *; simp_state; try reflexivity
       end.
-      all: try solve [intros x; destruct last; simp_state; cnt_norm; lia].
-      all: try solve [intros c0; destruct last; simp_state; in_norm; tauto].
-      all: try solve [intros; discriminate].
+      all: try solve [intros x; cnt_norm; lia].
+      all: try solve [intros c0; in_norm; tauto].
+      all: try solve [intros c1 c2 E; exfalso; eapply Hnp; exact E].
       all: try solve [apply Hsrt; apply (p_sorted _ _ Hp)].
       all: try exact Hfm.
       { intros _. exists (EFile data). split; [exact Hdir|]. left. exists data, b. split; [exact Hacc|reflexivity]. }
       { rewrite Hdir, Hnone. cbn [esize]. lia. }
       { lia. }
       { right. left. exists data. split; assumption. }
-      split; [exact Hp'|intros _]. destruct Hinv. constructor; try (use_A HA); simp_state; rewrite ?Ef in *; simp_state; try field_trivial.
-      destruct i_bound. split; lia.
+      split; [exact Hp'|intros _]. destruct Hinv. constructor; try (use_A HA); simp_state; rewrite ?Hsb, ?Hmlb in *; simp_state; try field_trivial.
+      * destruct i_bound. split; lia.
+      * intros c1 c2 E. exfalso. eapply Hnp. exact E.
+      * exists rest. split; [exact Hrest|intros; discriminate].
+      * split; [rewrite Haq; exact Hq0|intros E; contradiction].
     + destruct (Hno eq_refl) as (_ & Hdir & Hmet). subst m.
       match goal with |- PInv ?S /\ _ =>
-        destruct (settle s S c false Hp Hinv Hct) as [Hp' HA]; simp_state; rewrite ?Ef in *;
+        destruct (settle s S c false Hp Hinv Hct) as [Hp' HA]; simp_state; rewrite ?Hhand, ?Hhall in *;
           rewrite ?(op_on_dropped_pbytes_unsaved _ _ Hs) in *; simp_state; try reflexivity
       end.
-      all: try solve [intros x; destruct last; simp_state; cnt_norm; lia].
-      all: try solve [intros c0; destruct last; simp_state; in_norm; tauto].
+      all: try solve [intros x; cnt_norm; lia].
+      all: try solve [intros c0; in_norm; tauto].
+      all: try solve [intros c1 c2 E; exfalso; eapply Hnp; exact E].
       all: try solve [intros; discriminate].
       all: try solve [apply Hsrt; apply (p_sorted _ _ Hp)].
       all: try exact Hfm.
       all: try solve [rewrite Hdir; lia].
       all: try solve [left; exact Hdir].
-      split; [exact Hp'|intros _]. destruct Hinv. constructor; try (use_A HA); simp_state; rewrite ?Ef in *;
+      split; [exact Hp'|intros _]. destruct Hinv. constructor; try (use_A HA); simp_state; rewrite ?Hsb, ?Hmlb in *;
         rewrite ?(op_on_dropped_pbytes_unsaved _ _ Hs) in *; simp_state; try field_trivial.
+      * intros c1 c2 E. exfalso. eapply Hnp. exact E.
+      * exists rest. split; [exact Hrest|intros; discriminate].
+      * split; [rewrite Haq; exact Hq0|intros E; contradiction].
   - inversion H; subst s'; clear H.
     destruct (unload_write_died _ _ _ _ _ _ Ew) as (Hf & Hsrt & Hcases).
     split; [|simp_state; intros; discriminate].
@@ -701,14 +735,26 @@ Proof.
       [exact Hp|reflexivity|exact Hev|apply Hsrt; apply (p_sorted _ _ Hp)|apply (frame_matching _ _ _ Hf Hm)|exact Hcases].
 Qed.
 
-(* ---------- saveEverything: the next chunk, up to the write ---------- *)
+(* ---------- saveQueued / saveOutput: the next chunk, up to the write ---------- *)
+Definition save_pc (back : fpc) : Prop := (exists l, back = FSave l) \/ back = FSaveOut.
+
+Lemma save_pc_facts : forall back c, save_pc back ->
+  main_loop back = false /\ saving back = None /\ (forall c1 c2, back <> FPush c1 c2) /\ back <> FStopped /\
+  hand (writing_pc back c) = c :: hand back /\ hand_all (writing_pc back c) = c :: hand_all back /\
+  main_loop (writing_pc back c) = false /\ saving (writing_pc back c) = Some (c, back) /\
+  after_queue (writing_pc back c) = after_queue back /\ writing_pc back c <> FStopped /\
+  (forall c1 c2, writing_pc back c <> FPush c1 c2).
+Proof.
+  intros back c [[l E]|E]; subst back; [destruct l|]; cbn [main_loop saving writing_pc hand hand_all after_queue];
+    repeat split; try reflexivity; try (intros; discriminate); try (intros ? ?; discriminate).
+Qed.
+
 Lemma good_save_check : forall s s',
   PInv s -> Inv s -> do_save_check s = Some s' -> PInv s' /\ Inv s'.
 Proof.
   intros s s' Hp Hinv H. unfold do_save_check in H.
-  destruct (save_next s) as [[[c last] s1]|] eqn:En; [|discriminate].
+  destruct (save_next s) as [[[c back] s1]|] eqn:En; [|discriminate].
   unfold save_next in En.
-  destruct (st_fpc s) as [| | |l0| | |] eqn:Ef; try discriminate.
   (* where the chunk comes from: three cases, the same bookkeeping *)
   assert (Hs1 : st_dir s1 = st_dir s /\ st_ever s1 = st_ever s /\ st_dirok s1 = st_dirok s /\ st_max s1 = st_max s /\
                 st_met s1 = st_met s /\ st_hold s1 = st_hold s /\ st_closed s1 = st_closed s /\
@@ -720,35 +766,46 @@ Proof.
                 g_initbytes (st_gh s1) = g_initbytes (st_gh s) /\ g_maxfw (st_gh s1) = g_maxfw (st_gh s) /\
                 In c (tracked s) /\
                 (forall x, cnt x (ids (inflight s)) =
-                           (cnt x [c_id c] + cnt x (ids (st_queue s1 ++ hand (FSave last) ++ st_win s1 ++ st_hold s1)))%nat) /\
-                (forall c0, In c0 (st_queue s1 ++ hand_all (FSave last) ++ st_win s1 ++ st_hold s1) -> In c0 (tracked s)) /\
+                           (cnt x [c_id c] + cnt x (ids (st_queue s1 ++ hand back ++ st_win s1 ++ st_hold s1)))%nat) /\
+                (forall c0, In c0 (st_queue s1 ++ hand_all back ++ st_win s1 ++ st_hold s1) -> In c0 (tracked s)) /\
                 g_offered (st_gh s1) = map fst (g_out (st_gh s1)) ++ st_win s1 /\
-                (length (st_win s1) <= st_M s)%nat /\ (length (st_queue s1) <= st_Q s)%nat).
+                (length (st_win s1) <= st_M s)%nat /\ (length (st_queue s1) <= st_Q s)%nat /\
+                save_pc back /\ main_loop (st_fpc s) = false /\
+                (after_queue back = true -> st_queue s1 = [])).
   { pose proof (i_win _ _ _ Hinv) as Hw. pose proof (i_winbound _ _ _ Hinv) as Hwb. pose proof (i_qbound _ _ _ Hinv) as Hqb.
-    unfold tracked, inflight. rewrite Ef.
-    destruct (st_queue s) as [|cq q] eqn:Eq.
-    - destruct l0 as [cl|].
-      + inversion En; subst c last s1; clear En. simp_state. rewrite ?Eq.
-        repeat split; try reflexivity; try assumption; try (in_norm; tauto).
+    destruct (i_empty _ _ _ Hinv) as [Hq0 _].
+    unfold tracked, inflight.
+    destruct (st_fpc s) as [| | |l0| | | | |] eqn:Ef; try discriminate.
+    - destruct (st_queue s) as [|cq q] eqn:Eq.
+      + destruct l0 as [cl|]; [|discriminate].
+        inversion En; subst c back s1; clear En. simp_state. rewrite ?Eq.
+        repeat split; try reflexivity; try assumption; try (in_norm; tauto); try (intros; discriminate).
         * intros x. cnt_norm. lia.
         * intros c0. in_norm. tauto.
-      + destruct (st_win s) as [|cw w] eqn:Ew; [discriminate|].
-        inversion En; subst c last s1; clear En. simp_state. rewrite ?Eq.
-        repeat split; try reflexivity; try assumption; try (in_norm; tauto).
-        * intros x. cnt_norm. lia.
-        * intros c0. in_norm. tauto.
-        * rewrite Hw, map_app. cbn [map fst]. rewrite <- app_assoc. reflexivity.
-        * cbn [length] in Hwb. lia.
-    - inversion En; subst c last s1; clear En. simp_state.
+        * left. exists None. reflexivity.
+      + inversion En; subst c back s1; clear En. simp_state.
+        repeat split; try reflexivity; try assumption; try (in_norm; tauto); try (intros; discriminate).
+        * intros x. destruct l0; simp_state; cnt_norm; lia.
+        * intros c0. destruct l0; simp_state; in_norm; tauto.
+        * cbn [length] in Hqb. lia.
+        * left. exists l0. reflexivity.
+    - destruct (st_win s) as [|cw w] eqn:Ew; [discriminate|].
+      inversion En; subst c back s1; clear En. simp_state.
       repeat split; try reflexivity; try assumption; try (in_norm; tauto).
-      + intros x. destruct l0; simp_state; cnt_norm; lia.
-      + intros c0. destruct l0; simp_state; in_norm; tauto.
-      + cbn [length] in Hqb. lia. }
+      all: try solve [intros x; cnt_norm; lia].
+      all: try solve [intros c0; in_norm; tauto].
+      all: try solve [rewrite Hw, map_app; cbn [map fst]; rewrite <- app_assoc; reflexivity].
+      all: try solve [cbn [length] in Hwb; lia].
+      all: try solve [right; reflexivity].
+      all: try solve [intros _; apply Hq0; reflexivity]. }
   clear En.
   destruct Hs1 as (E1 & E2 & E3 & E4 & E5 & E6 & E7 & E8 & E9 & E10 & E11 & G1 & G2 & G3 & G4 & G5 & G6 & G7 & G8 & G9 & G10 &
-                   Hct & Hcnt & Htr & Hwin & Hwb & Hqb).
+                   Hct & Hcnt & Htr & Hwin & Hwb & Hqb & Hsp & Hml & Hq1).
+  destruct (save_pc_facts back c Hsp) as (Hmlb & Hsb & Hnp & Hnst & Whand & Whall & Wml & Wsv & Waq & Wnst & Wnp).
   assert (Hwf : wf_chunk s c) by (apply (i_chunk _ _ _ Hinv); exact Hct).
   assert (Hm : matchf (c_id c) = true) by (apply tracked_match with (s := s); assumption).
+  assert (Hclosed : st_closed s = true) by (apply (i_closed _ _ _ Hinv); exact Hml).
+  destruct (i_fifo _ _ _ Hinv) as (rest & Hrest & _).
   rewrite E3, E4, E5 in H.
   destruct (unload_check (st_dirok s) (st_max s) (st_met s) c) as [| |data] eqn:Hck; inversion H; subst s'; clear H.
   - (* already on disk *)
@@ -757,7 +814,7 @@ Proof.
       destruct (settle s S c true Hp Hinv Hct) as [Hp' HA]; simp_state;
         rewrite ?E1, ?E2, ?E3, ?E4, ?E5, ?E6, ?G1, ?G2, ?G3, ?G4, ?G5, ?G6, ?G7, ?G8 in *; try reflexivity
     end.
-    all: try solve [intros; discriminate].
+    all: try solve [intros c1 c2 E; exfalso; eapply Hnp; exact E].
     all: try solve [apply (p_sorted _ _ Hp)].
     all: try lia.
     all: try solve [left; reflexivity].
@@ -765,9 +822,11 @@ Proof.
     { exact Htr. }
     { intros _. apply wf_saved_orig; assumption. }
     split; [exact Hp'|]. destruct Hinv. constructor; try (use_A HA); unfold is_orig in *; simp_state;
-      rewrite ?Ef, ?E1, ?E2, ?E3, ?E4, ?E5, ?E6, ?E7, ?E8, ?E9, ?E10, ?G1, ?G2, ?G3, ?G4, ?G5, ?G6, ?G7, ?G8, ?G9, ?G10 in *;
+      rewrite ?Hsb, ?Hmlb, ?E1, ?E2, ?E3, ?E4, ?E5, ?E6, ?E7, ?E8, ?E9, ?E10, ?G1, ?G2, ?G3, ?G4, ?G5, ?G6, ?G7, ?G8, ?G9, ?G10 in *;
       simp_state; try field_trivial.
-    destruct i_fifo as (rest & Hr & _). exists rest. split; [exact Hr|intros; discriminate].
+    + intros c1 c2 E. exfalso. eapply Hnp. exact E.
+    + exists rest. split; [exact Hrest|intros; discriminate].
+    + split; [exact Hq1|intros E; contradiction].
   - (* cannot be saved: dropped *)
     apply unload_check_no in Hck.
     match goal with |- PInv ?S /\ _ =>
@@ -775,6 +834,7 @@ Proof.
         rewrite ?E1, ?E2, ?E3, ?E4, ?E5, ?E6, ?G1, ?G2, ?G3, ?G4, ?G5, ?G6, ?G7, ?G8 in *;
         rewrite ?(op_on_dropped_pbytes_unsaved _ _ Hck) in *; try reflexivity
     end.
+    all: try solve [intros c1 c2 E; exfalso; eapply Hnp; exact E].
     all: try solve [intros; discriminate].
     all: try solve [apply (p_sorted _ _ Hp)].
     all: try lia.
@@ -782,29 +842,33 @@ Proof.
     { exact Hcnt. }
     { exact Htr. }
     split; [exact Hp'|]. destruct Hinv. constructor; try (use_A HA); unfold is_orig in *; simp_state;
-      rewrite ?Ef, ?E1, ?E2, ?E3, ?E4, ?E5, ?E6, ?E7, ?E8, ?E9, ?E10, ?G1, ?G2, ?G3, ?G4, ?G5, ?G6, ?G7, ?G8, ?G9, ?G10 in *;
+      rewrite ?Hsb, ?Hmlb, ?E1, ?E2, ?E3, ?E4, ?E5, ?E6, ?E7, ?E8, ?E9, ?E10, ?G1, ?G2, ?G3, ?G4, ?G5, ?G6, ?G7, ?G8, ?G9, ?G10 in *;
       rewrite ?(op_on_dropped_pbytes_unsaved _ _ Hck) in *;
       simp_state; try field_trivial.
-    destruct i_fifo as (rest & Hr & _). exists rest. split; [exact Hr|intros; discriminate].
+    + intros c1 c2 E. exfalso. eapply Hnp. exact E.
+    + exists rest. split; [exact Hrest|intros; discriminate].
+    + split; [exact Hq1|intros E; contradiction].
   - (* the space check passed: the write comes next; the chunk stays with the feeder *)
     destruct (unload_check_write _ _ _ _ _ Hck) as (Hs & Hd & Hok & Hquota).
     split.
     { apply pinv_same with (s := s); simp_state; [exact E1|exact E2|exact Hp]. }
     destruct Hinv. constructor; unfold is_orig in *; simp_state;
-      rewrite ?Ef, ?E1, ?E2, ?E3, ?E4, ?E5, ?E6, ?E7, ?E8, ?E9, ?E10, ?G1, ?G2, ?G3, ?G4, ?G5, ?G6, ?G7, ?G8, ?G9, ?G10 in *;
+      rewrite ?Whand, ?Whall, ?Wml, ?Wsv, ?Waq, ?E1, ?E2, ?E3, ?E4, ?E5, ?E6, ?E7, ?E8, ?E9, ?E10, ?G1, ?G2, ?G3, ?G4, ?G5, ?G6, ?G7, ?G8, ?G9, ?G10 in *;
       simp_state; try field_trivial.
-    + intros x. specialize (i_count x). rewrite (Hcnt x) in i_count. destruct last; simp_state; cnt_norm; lia.
+    + intros x. specialize (i_count x). rewrite (Hcnt x) in i_count. cnt_norm. lia.
     + intros c0 Hc0.
-      assert (Hin : In c0 (st_queue s ++ hand_all (FSave l0) ++ st_win s ++ st_hold s)).
-      { assert (Hor : c0 = c \/ In c0 (st_queue s1 ++ hand_all (FSave last) ++ st_win s1 ++ st_hold s)).
-        { destruct last; simp_state; rewrite ?in_app_iff in *; cbn [In] in *; rewrite ?E6 in *; intuition. }
+      assert (Hin : In c0 (st_queue s ++ hand_all (st_fpc s) ++ st_win s ++ st_hold s)).
+      { assert (Hor : c0 = c \/ In c0 (st_queue s1 ++ hand_all back ++ st_win s1 ++ st_hold s)).
+        { rewrite ?in_app_iff in *; cbn [In] in *; intuition. }
         destruct Hor as [Hor|Hor]; [subst c0; exact Hct|apply Htr; exact Hor]. }
       eapply wf_chunk_frame with (s := s); simp_state;
         [rewrite E1; reflexivity|rewrite G1; apply incl_refl|exact G2|exact G3|exact E3|apply i_chunk; exact Hin].
     + destruct i_bound. split; lia.
-    + intros l c0 Ec. inversion Ec; subst l c0. assert (Hdl : dlen c = Z.of_nat (length data)) by (unfold dlen; rewrite Hd; reflexivity).
+    + intros c0 back0 Ec. inversion Ec; subst c0 back0. assert (Hdl : dlen c = Z.of_nat (length data)) by (unfold dlen; rewrite Hd; reflexivity).
       repeat split; try lia; try assumption. exists data. exact Hd.
-    + destruct i_fifo as (rest & Hr & _). exists rest. split; [exact Hr|intros; discriminate].
+    + intros c1 c2 E. exfalso. eapply Wnp. exact E.
+    + exists rest. split; [exact Hrest|intros; discriminate].
+    + split; [exact Hq1|intros E; contradiction].
 Qed.
 
 
@@ -813,7 +877,7 @@ Lemma good_feed_load : forall s s' rerr,
   PInv s -> Inv s -> do_feed_load rerr s = Some s' -> PInv s' /\ Inv s'.
 Proof.
   intros s s' rerr Hp Hinv H. unfold do_feed_load in H.
-  destruct (st_fpc s) as [|c| | | | |] eqn:Ef; try discriminate.
+  destruct (st_fpc s) as [|c| | | | | | |] eqn:Ef; try discriminate.
   assert (Hct : In c (tracked s)) by (unfold tracked; rewrite Ef; cbn [hand_all hand]; in_norm; tauto).
   assert (Hwf : wf_chunk s c) by (apply (i_chunk _ _ _ Hinv); exact Hct).
   assert (Hm : matchf (c_id c) = true) by (apply tracked_match with (s := s); assumption).
@@ -1008,7 +1072,7 @@ Proof.
     + intros x Hx. apply F3; [exact Hx|]. intros E. subst x. apply Hnent. apply class_entered; [exact Hinv|tauto].
     + rewrite Hpb, owned_sum_app, (F5 Hnent), (i_space _ _ _ Hinv). cbn [owned_sum]. lia.
     + split; [exact Hbound|apply (i_bound _ _ _ Hinv)].
-    + intros l c0 Ef. rewrite Ef in Hml. discriminate.
+    + intros c0 back0 Esv. destruct (st_fpc s); cbn [main_loop saving] in Hml, Esv; discriminate.
     + apply (i_push _ _ _ Hinv).
     + rewrite Hdr, Gdrop, (i_dropped _ _ _ Hinv). destruct enq; rewrite ?app_length; cbn [length]; lia.
     + rewrite Hco. apply (i_consumed _ _ _ Hinv).
@@ -1029,7 +1093,8 @@ Proof.
     + rewrite Equeue. destruct enq; [|apply (i_qbound _ _ _ Hinv)].
       destruct (Henq eq_refl) as (_ & _ & Hlt). rewrite app_length. cbn [length]. lia.
     + apply (i_closed _ _ _ Hinv).
-    + intros Hw. destruct Hw as [Hw|Hw]; rewrite Hw in Hml; discriminate.
+    + split; [intros Haq; destruct (st_fpc s); cbn [main_loop after_queue] in Hml, Haq; discriminate|].
+      intros E. rewrite E in Hml. discriminate.
     + apply (i_recsorted _ _ _ Hinv).
     + intros x d b Hx. rewrite Gacc in Hx. rewrite Eever. apply in_app_or in Hx. destruct Hx as [Hx|[Hx|[]]].
       * apply in_or_app. left. eapply (i_acc_ever _ _ _ Hinv). exact Hx.
